@@ -244,6 +244,12 @@ impl<T: GseDecapMemory, C: CrcCalculator, MHEM: MandatoryHeaderExtensionManager>
         self.last_label = None;
     }
 
+    /// Verification hook: read-only view of the label memory
+    #[cfg(dvb_gse_rust_verif)]
+    pub fn verif_last_label(&self) -> Option<Label> {
+        self.last_label
+    }
+
     /// GSE decapsulation of the payload from a buffer
     ///
     /// The function decap reads the buffer to extract a packet.
